@@ -10,7 +10,7 @@ RULE = ('one run = a model (sample, synthesised file of any block type x version
         'the independent reader: block count, type table (no duplicate, no unused name), type of every block, size of every block (== independent serialisation of that block), '
         'walk from header end by the size table lands on the 8-byte footer at EOF, string table without duplicates (no unknown blocks), max string length, every string index '
         'field (located by the string hook) empty or inside the table. non-trivial = at least one file was written and walked; distinct = distinct (initial state, effective step trace).')
-ASSUMPTIONS = ['versions without a table are skipped for that table (Oblivion: no sizes, no string table; the walk then uses independent serialisation sizes)',
+ASSUMPTIONS = ['30 % of the intermediate saves go to a non-seekable stream (fault F-NOSEEK: tellp() fails, the size table cannot be back-patched)', 'versions without a table are skipped for that table (Oblivion: no sizes, no string table; the walk then uses independent serialisation sizes)',
                'nifparse shares no code with nifly']
 EXPECTED_PROBES = ['files_walked', 'edit_delete_verts', 'edit_clone_shape', 'edit_add_loose_block', 'edit_convert', 'edit_add_shape']
 
@@ -35,7 +35,10 @@ def gen_plan(seed, i, tier):
     steps = []
     for _ in range(rng.range(0, 8)):
         if rng.chance(0.2):
-            steps.append({'op': rng.choice(['Save', 'Restart']), 'raw': rng.chance(0.5)})
+            st = {'op': rng.choice(['Save', 'Restart']), 'raw': rng.chance(0.5)}
+            if st['op'] == 'Save' and rng.chance(0.3):
+                st['pipe'] = True    # the file goes to a stream that cannot seek (pipe, socket, compressor)
+            steps.append(st)
         else:
             steps.append(edits.edit_step(rng, 'quick', version_hint=ver))
     return {'property': PROP, 'profile': 'writemon', 'run_index': i, 'init': init, 'steps': steps, 'final_raw': rng.chance(0.5), 'timeout_s': 60}
